@@ -27,8 +27,31 @@ class PythonMonitor:
         self.ctx, self.fl = ctx, fl
         self.last = None
 
+    DEDICATED = ("engine", "input_variable", "output_variable", "rule_block", "term", "norm", "activation", "defuzzifier", "rule")
+
     def install(self, probe):
         probe.wrap(self.fl.PythonExporter, "to_string", after=self._after)
+        for name in self.DEDICATED:
+            probe.wrap(self.fl.PythonExporter, name, after=self._after_dedicated(name))
+
+    def _after_dedicated(self, name):
+        def after(args, kwargs, token, result, exc):
+            # the exporter's method for one kind of component: the same code as to_string gives for it ("None" for none)
+            ctx, exporter, instance = self.ctx, args[0], args[1]
+            ctx.evaluated()
+            ctx.hit("compare:dedicated method " + name)
+            if exc is not None:
+                ctx.violation(f"PythonExporter.{name} raises {type(exc).__name__}", {"component": repr(instance)[:300]}, "code", repr(exc)[:200])
+                return
+            if instance is None:
+                if result != "None":
+                    ctx.violation(f"PythonExporter.{name}(None) is not None", {}, "None", result)
+                return
+            if self.judged is not None and self.judged[0] is instance and self.judged[1] == result:
+                return  # produced by a to_string call on the same object that was judged a moment ago
+            self._after((exporter, instance), {}, None, result, None)
+
+        return after
 
     def rebuild(self, exporter, instance, code):
         fl = self.fl
@@ -53,6 +76,7 @@ class PythonMonitor:
         case = {"alias": alias, "encapsulated": exporter.encapsulated, "formatted": exporter.formatted, "kind": kind, "code": str(result)[:3000] if result else None}
         ctx.evaluated()
         self.last = None
+        self.judged = (instance, result)
         if exc is not None:
             ctx.violation(f"exporting a {kind} to Python raises {type(exc).__name__}", dict(case, error=repr(exc)[:200]), "code", repr(exc)[:200])
             return
@@ -111,11 +135,13 @@ def arbitrary(rnd, spec):
                 # keep the ordering constraints of the vertices
                 if t["cls"] == "Discrete":
                     xs = sorted(t["params"][0::2])
+                    if rnd.random() < 0.3:
+                        rnd.shuffle(xs)  # pairs that are not in ascending order of x are kept as given
                     t["params"][0::2] = xs
                 elif t["cls"] in ("PiShape", "Trapezoid", "Triangle"):
                     t["params"] = sorted(t["params"])
                 else:
-                    t["params"] = sorted(t["params"])
+                    t["params"] = sorted(t["params"], reverse=t["cls"] == "Rectangle" and t["params"][0] > t["params"][1])
             if t.get("height", 1.0) != 1.0:
                 t["height"] = min(0.99, max(0.01, t["height"] + rnd.uniform(-1e-3, 1e-3)))
         v["description"] = rnd.choice(["", "it's \"quoted\"", "back\\slash", "a 'single' quote", "tab\tand unicode é", "a long description that goes well beyond the thirty characters reprlib keeps by default, " * 2])
@@ -137,6 +163,14 @@ def components(fl, engine):
     return [c for c in out if c is not None]
 
 
+def dedicated(fl, exporter, c):
+    """the exporter's own method for this kind of component"""
+    for cls, name in ((fl.Engine, "engine"), (fl.InputVariable, "input_variable"), (fl.OutputVariable, "output_variable"), (fl.RuleBlock, "rule_block"), (fl.Term, "term"), (fl.Norm, "norm"), (fl.Activation, "activation"), (fl.Defuzzifier, "defuzzifier"), (fl.Rule, "rule")):
+        if isinstance(c, cls):
+            return getattr(exporter, name)(c)
+    return None
+
+
 def run(ctx):
     fl = import_library()
     nengines = ctx.scale(60, 4000)
@@ -154,7 +188,7 @@ def run(ctx):
         for i, rnd in ctx.cases("engines", nengines):
             d = rnd.choice([3, 3, 1, 6])
             with fl.settings.context(decimals=d):
-                spec = arbitrary(rnd, E.gen_engine(rnd, activations=tuple(c08.METHODS), d=d, descriptions=True, infinite=True, max_rules=rnd.choice([4, 4, 9]), kinds=("integral", "ts", "ts", "tsukamoto", "inverse")))
+                spec = arbitrary(rnd, E.gen_engine(rnd, activations=tuple(c08.METHODS), d=d, descriptions=True, infinite=True, reversed_bounds=True, max_rules=rnd.choice([4, 4, 9]), kinds=("integral", "ts", "ts", "tsukamoto", "inverse")))
                 if rnd.random() < 0.4:
                     spec = E.exotic(rnd, spec, empty_engine_name=False)  # the encapsulating class is named after the engine
                     ctx.hit("workload:exotic configuration")
@@ -162,11 +196,14 @@ def run(ctx):
                     v = rnd.choice(spec["inputs"])
                     lo_, hi_ = (v["minimum"] if math.isfinite(v["minimum"]) else -5.0), (v["maximum"] if math.isfinite(v["maximum"]) else 5.0)
                     v["terms"] += [E.G.shape_term(rnd, f"x{v['name']}{j}", lo_, hi_, d=d) for j in range(7)]
+                # "every engine": also those that were not put together with constructors
+                spec["route"] = rnd.choice(["constructors", "constructors", "factories", "fll", "configure", "rule-create-with-engine"])
                 try:
                     engine = E.build(fl, spec)
                 except Exception as ex:
                     ctx.hit(f"inconclusive:generated engine does not build: {type(ex).__name__}: {str(ex)[:60]}")
                     continue
+                ctx.hit("route:" + spec["route"])
                 for a, alias in enumerate(ALIASES):
                     with fl.settings.context(alias=alias):
                         for encapsulated in (False, True):
@@ -186,10 +223,32 @@ def run(ctx):
                                         fl.PythonExporter(formatted=False, encapsulated=encapsulated).to_string(c)
                                     except Exception:
                                         pass
+                                try:
+                                    dedicated(fl, fl.PythonExporter(formatted=False), c)
+                                except Exception:
+                                    pass
                 if i < 2:
                     ctx.sample("engine", {"decimals": d, "repr": repr(engine)[:2500]})
+        # components on their own, as the factories and configure(parameters) leave them (what an FLL import builds): terms with
+        # the bounds or pairs in the order they were written, heights, and the parameterised operators
+        for i, rnd in ctx.cases("components", ctx.scale(1200, 40_000)):
+            d = rnd.choice([3, 3, 1, 6])
+            lo, hi = E.gen_range(rnd)
+            spec = arbitrary(rnd, dict(inputs=[dict(terms=[E.G.shape_term(rnd, "t", lo, hi, d=d, reversed_bounds=True)], description="")], outputs=[]))["inputs"][0]["terms"][0]
+            with fl.settings.context(decimals=d, alias=ALIASES[i % len(ALIASES)]):
+                try:
+                    term = E._term(fl, spec, None, "factories" if i % 3 else "constructors")
+                except Exception as ex:
+                    ctx.hit(f"inconclusive:generated term does not build: {type(ex).__name__}")
+                    continue
+                ctx.hit("component:term built by " + ("factory and configure" if i % 3 else "constructor"))
+                try:
+                    fl.PythonExporter(formatted=False, encapsulated=bool(i % 2)).to_string(term)  # judged by the monitor
+                except Exception:
+                    pass
         probe.report(ctx)
         reach.report(ctx)
+    ctx.require("component:term built by factory and configure", "compare:dedicated method input_variable", "compare:dedicated method rule_block", "compare:dedicated method term", "compare:dedicated method norm")
     ctx.require("hook:PythonExporter.to_string", "compare:identical outputs", "kind:Engine", "kind:Term", "kind:InputVariable", "kind:OutputVariable", "kind:RuleBlock", "kind:Rule", "kind:Norm", "kind:Defuzzifier", "kind:Activation")
     for alias in ALIASES:
         for enc in ("plain", "encapsulated"):
